@@ -110,7 +110,7 @@ func genC05(tier string, r *rng) {
 	}
 	// small objects around the polyglot length (52 bytes total) and others: PKCS#1 public keys with tiny moduli
 	for _, bits := range []int{200, 328, 336, 344, 352, 360, 368, 376, 384, 392, 400, 512} {
-		ders = append(ders, mustMarshal(asn1struct.PKCS1PublicKey{N: oddOfBits(r, bits), E: 65537}))
+		ders = append(ders, mustMarshal(asn1struct.PKCS1PublicKey{N: oddOfBits(r, bits), E: big.NewInt(65537)}))
 	}
 	// objects whose DER ends (or begins its content) with octets a text-minded dispatcher might trim: Ed25519 PKCS#8 keys whose
 	// last octet is LF, CR, HT, VT, FF, space, NEL (C2 85), NBSP (C2 A0), a BOM-like tail; a multi-prime RSA key (version 1,
